@@ -31,6 +31,7 @@ class BaseErr(BaseException):
 
 
 ERRCLS = [Err]
+FROMVALUE = [False]
 MUTATE = [None]     # what the caller does to its input list right after the call: None, 'pop', 'append', 'clear'
 
 
@@ -87,7 +88,10 @@ def check_when(kind, n, rep, stats):
       ars = [AsyncResult() for _ in range(n)]
       done = []     # completion order (pre-complete ones first, input order)
       for i in pre:
-        complete(ars[i], i, outcome[i])
+        if FROMVALUE[0] and outcome[i]:
+          ars[i] = AsyncResult.FromValue(val(i))      # an already complete input made with the library's own helper
+        else:
+          complete(ars[i], i, outcome[i])
         done.append(i)
       vloop.run_ready()
       passed = list(ars)
@@ -138,7 +142,7 @@ def check_when(kind, n, rep, stats):
           else:
             good = got == ('pending',)
             want = 'pending (no input has succeeded, not all have failed)'
-        stats['cases_keys'].add((kind, n, outcome, pre, order, s, got[0], VALMODE[0], ERRCLS[0].__name__, MUTATE[0]))
+        stats['cases_keys'].add((kind, n, outcome, pre, order, s, got[0], VALMODE[0], ERRCLS[0].__name__, MUTATE[0], FROMVALUE[0]))
         if not good:
           clause = 'C17.when%s' % kind
           if kind == 'any' and oks and got[0] in ('fail', 'both') and s is not None:
@@ -367,6 +371,13 @@ def main(tier, seed):
         check_when(kind, n, rep, stats)
         world.reset()
   MUTATE[0] = None
+  for vm in ('falsy', 'text'):
+    VALMODE[0], FROMVALUE[0] = vm, True
+    for kind in ('all', 'any'):
+      for n in range(1, 4):
+        check_when(kind, n, rep, stats)
+        world.reset()
+  FROMVALUE[0] = False
   VALMODE[0] = 'falsy'
   for kind in ('all', 'any'):
     for n in range(1, (4 if tier == 'quick' else 5) + 1):
